@@ -190,7 +190,13 @@ impl Property for Univ {
             _ => {}
         }
         let mut first_ok: Option<Box<Dump>> = None;
-        for &v in self.variants() {
+        // deeply nested counter-boundary inputs: the debug-assertion builds keep a copy of the mode stack per main-loop
+        // iteration (their loop detector), which is quadratic in the nesting depth - minutes for 2^15 levels. That is
+        // slowness of debug-only bookkeeping, not a hang, so those inputs go to the optimized builds and to the
+        // optimized build with arithmetic overflow checks instead
+        let deep: &[Variant] = &[Variant::Ovf, Variant::Rel, Variant::Nosep];
+        let variants = if case.kind == "counter-boundary-deep" { deep } else { self.variants() };
+        for &v in variants {
             let l = lex(v, src);
             if self.id == "C01" {
                 c01_of(v, src, &l, &mut vd.violations);
@@ -204,6 +210,10 @@ impl Property for Univ {
                 }
                 if let Lexed::Panic(_) = &l {
                     vd.label(format!("panic:{}", v.name()));
+                }
+                if case.kind == "counter-boundary-deep" && !vd.violations.is_empty() {
+                    // the overflow-checking build already failed: do not let the wrapping builds run away on it
+                    break;
                 }
             }
             let d = match l {
@@ -341,6 +351,7 @@ impl Property for Univ {
         match self.id {
             "C01" => {
                 v.push(Box::new(BigInput { mib: if thorough { 64 } else { 8 } }));
+                v.push(Box::new(Counters { big: thorough }));
                 v.push(Box::new(ProgSweep { seed: mix2(seed, 0x10), programs: if thorough { 20_000 } else { 2_000 }, mode: ProgMode::Truncate }));
             }
             "C04" | "C05" => v.push(Box::new(ProgSweep { seed: mix2(seed, 0x04), programs: if thorough { 20_000 } else { 2_000 }, mode: ProgMode::InsertLf })),
@@ -763,6 +774,54 @@ impl Sweep for BigInput {
             i += 1;
         }
         f(Case::text("big-input", s));
+    }
+}
+
+/// counter boundaries: one unit repeated n times for n around 2^7, 2^8, 2^15, 2^16 (the widths a nesting level, an
+/// ampersand count or an offset could be narrowed to), in every opener context, left open and closed again
+pub struct Counters {
+    pub big: bool,
+}
+const CNT_CTX: &[(&str, &str)] = &[("", ""), ("%m(", ")"), ("%m(a=", ");"), ("%upcase(", ")"), ("%macro m(a=", "); %mend;"), ("%eval(", ")"), ("%let x=", ";"), ("%str(", ")"), ("\"", "\""), ("%put ", ";"), ("%if ", " %then;"), ("x=", ";"), ("%sysfunc(f(", "))"), ("%scan(", ",1)")];
+const CNT_UNIT: &[(&str, &str)] = &[("(", ")"), ("%m(", ")"), ("%eval(", ")"), ("%str(", ")"), ("&", ""), ("&a", ""), ("%upcase(", ")"), ("\"%m(", ")\""), ("%do;", "%end;"), ("\n", ""), (",", ""), ("'a'", ""), ("/*c*/", ""), ("%if 1 %then ", ";"), ("é", ""), ("a.", ""), ("%let a=", ";")];
+impl Sweep for Counters {
+    fn name(&self) -> String {
+        format!("counter boundaries: {} units repeated n times, n in {}, in {} contexts, left open and closed", CNT_UNIT.len(), if self.big { "{127..129, 255..257, 32767..32769, 65535..65537, 2^20}" } else { "{128, 129, 256, 257, 32768, 32769, 65536, 65537}" }, CNT_CTX.len())
+    }
+    fn chunks(&self) -> usize {
+        CNT_UNIT.len() * CNT_CTX.len()
+    }
+    fn run_chunk(&self, chunk: usize, f: &mut dyn FnMut(Case)) {
+        let (open, close) = CNT_UNIT[chunk % CNT_UNIT.len()];
+        let (pre, post) = CNT_CTX[chunk / CNT_UNIT.len()];
+        // a counter narrowed to k bits overflows from 2^(k-1) or 2^k units on; the thorough tier also takes the values just below
+        let mut ns: Vec<usize> = if self.big { vec![127, 128, 129, 255, 256, 257, 32767, 32768, 32769, 65535, 65536, 65537] } else { vec![128, 129, 256, 257, 32768, 32769, 65536, 65537] };
+        if self.big && chunk % 7 == 0 {
+            ns.push(1 << 20);
+        }
+        for n in ns {
+            // nested %str( is lexed in quadratic time (every look-behind for the previous default-channel token walks over
+            // all the hidden %str( tokens): 2^16 levels take seconds per call - slow, not stuck; only 2^15 levels, in two contexts
+            if open == "%str(" && n > 1000 && !(n == 32768 && chunk / CNT_UNIT.len() < 2) {
+                continue;
+            }
+            let body = open.repeat(n);
+            // units that nest (they have a closer) make the mode stack n deep
+            // (long flat repetitions go to the slow debug-assertion builds only at the two exact powers of two)
+            let kind = if n > 1000 && (!close.is_empty() || (n != 32768 && n != 65536)) { "counter-boundary-deep" } else { "counter-boundary" };
+            let mut c = Case::text("counter-boundary", format!("{pre}{body}"));
+            c.kind = kind.into();
+            f(c);
+            let mut c = Case::text("counter-boundary", format!("{pre}{body}x{}{post}", close.repeat(n)));
+            c.kind = kind.into();
+            f(c);
+            if n >= 32767 && !close.is_empty() {
+                // the same total split by a sub-token in the middle
+                let mut c = Case::text("counter-boundary", format!("{pre}{}&v{}x{}{post}", open.repeat(n / 2), open.repeat(n - n / 2), close.repeat(n)));
+                c.kind = kind.into();
+                f(c);
+            }
+        }
     }
 }
 
